@@ -26,8 +26,38 @@ fn one_byte_class(x: u8) -> ClassName {
 fn is(c: &Option<ClassName>, x: u8) -> bool { matches!(c, Some(n) if n.as_inner().as_bytes().len() == 1 && n.as_inner().as_bytes()[0] == x) }
 fn is_str(c: &Option<JavaString>, x: u8) -> bool { matches!(c, Some(n) if n.as_bytes().len() == 1 && n.as_bytes()[0] == x) }
 
+//# {"id":"c01_tree_code_slots","props":["C01"],"tier":"quick","cap":1200,"bound":"Code as CodeVisitor: max_stack / max_locals (all u16 pairs), two instructions with symbolic labels (BiPush with a symbolic operand, then Return), last label (symbolic id; a second one refused), a one-entry line-number table (symbolic label and line): every fact in its own slot, instruction order and label attachment preserved; unwind 6","fns":["duke::visitor::implementations::tree::<impl CodeVisitor for Code>::{visit_max_stack_and_max_locals,visit_instruction,visit_last_label,visit_line_numbers}"]}
 //# {"id":"c01_tree_class_slots","props":["C01"],"tier":"quick","cap":1200,"bound":"ClassFile as ClassVisitor: one visit call out of {nest host, module main class, source file, source debug extension, deprecated/synthetic} (constant per arm) with a symbolic one-byte value / symbolic flags, then the same call again: the value lands in exactly its own slot, no other single-slot fact changes, the second visit is refused and changes nothing; unwind 6","fns":["duke::visitor::implementations::tree::<impl ClassVisitor for ClassFile>::{visit_nest_host_class,visit_module_main_class,visit_source_file,visit_source_debug_extension,visit_deprecated_and_synthetic_attribute}","duke::OptionExpansion::insert_if_empty"]}
 proofs! {
+	#[cfg_attr(kani, kani::unwind(6))]
+	fn c01_tree_code_slots() {
+		use duke::tree::method::code::{Code, Instruction};
+		use duke::verif::{label_from_id, label_id};
+		use duke::visitor::method::code::CodeVisitor;
+		let (ms, ml) = (sym::u16(), sym::u16());
+		let (l1, l2, last, ln_label, line) = (sym::u16(), sym::u16(), sym::u16(), sym::u16(), sym::u16());
+		let has_l1 = sym::bool();
+		let v = sym::i8();
+		let mut c = Code::default();
+		assert!(c.visit_max_stack_and_max_locals(ms, ml).is_ok());
+		assert!(c.max_stack == Some(ms) && c.max_locals == Some(ml), "max_stack and max_locals must not be swapped");
+		assert!(c.visit_instruction(if has_l1 { Some(label_from_id(l1)) } else { None }, None, Instruction::BiPush(v)).is_ok());
+		assert!(c.visit_instruction(Some(label_from_id(l2)), None, Instruction::Return).is_ok());
+		assert!(c.instructions.len() == 2, "every visited instruction is stored exactly once");
+		assert!(matches!(&c.instructions[0].instruction, Instruction::BiPush(x) if *x == v) && matches!(&c.instructions[1].instruction, Instruction::Return), "instruction order and operands are preserved");
+		assert!(c.instructions[0].label.as_ref().map(label_id) == if has_l1 { Some(l1) } else { None } && c.instructions[1].label.as_ref().map(label_id) == Some(l2), "labels stay attached to their instruction");
+		assert!(c.visit_last_label(label_from_id(last)).is_ok() && c.last_label.as_ref().map(label_id) == Some(last));
+		assert!(c.visit_last_label(label_from_id(l1)).is_err() && c.last_label.as_ref().map(label_id) == Some(last), "a second last label is refused and changes nothing");
+		let mut t = Vec::with_capacity(1);
+		t.push((label_from_id(ln_label), line));
+		assert!(c.visit_line_numbers(t).is_ok());
+		assert!(matches!(&c.line_numbers, Some(t) if t.len() == 1 && label_id(&t[0].0) == ln_label && t[0].1 == line), "line number table stored as given");
+		assert!(c.local_variables.is_none() && c.exception_table.is_empty() && c.attributes.is_empty() && c.max_stack == Some(ms) && c.max_locals == Some(ml), "nothing else is invented or disturbed");
+		witness!(has_l1 && l1 == l2, "two instructions carrying the same label id");
+		witness!(ms != ml, "different stack and locals sizes");
+		core::mem::forget(c);
+	}
+
 	#[cfg_attr(kani, kani::unwind(6))]
 	fn c01_tree_class_slots() {
 		let x = sym::u8();
